@@ -19,6 +19,7 @@ type Violation struct {
 	What     string   `json:"what"`           // which call / check failed
 	Expected string   `json:"expected"`
 	Observed string   `json:"observed"`
+	Product  []POp    `json:"product_path,omitempty"` // C12: operations of the product system
 	Known    string   `json:"known,omitempty"` // id of a listed known finding
 	Tags     []string `json:"tags,omitempty"`
 }
